@@ -6,7 +6,9 @@ mod checks;
 mod gen;
 mod known;
 mod minimize;
+mod oracle_rate;
 mod oracle_transport;
+mod oracle_twin;
 mod oracle_wire;
 mod plan;
 mod rng;
